@@ -18,7 +18,8 @@ RULE = ("postconditions on PolygonTensor.area, Polygon.centroid, Simplex.volume,
         "regular polygons, sum of exact face areas, equality <=> same vertex cycle up to rotation / reversal decided exactly (polyhedra: same faces "
         "in any order). Workload: polygon zoo, simplices, cuboids and regular polygons at every position and orientation in 2D and 3D (planes not "
         "through the origin, not z = const), all 2n re-orderings as positive equality cases, swapped / moved vertices as negative ones, "
-        "invariance under random isometries. Non-trivial: vertices not at the origin / axis aligned unit shapes; distinct by digest.")
+        "invariance under random isometries. Non-trivial: vertices not at the origin / axis aligned unit shapes; distinct by digest."
+        " Also: regular polygons moved after their measures were read, integer homogeneous vertices with w != 1 (fractional coordinates in an integer array) for simplices of every dimension.")
 SHARDS = (8, 16)
 REQUIRED = ["area", "centroid", "volume", "length", "midpoint", "circumcenter", "regular", "polyhedron.area", "eq", "isometry"]
 ASSUMPTIONS = ["vertices at infinity and complex vertices are not judged"]
